@@ -3,13 +3,16 @@
 //! Strings travel hex-encoded (UTF-8), empty string = `-` (same as lean/Drivers/Util.lean).
 //! Engines:
 //!   witpkg   (C32)  `<hex wit text>` -> `ok <hex of wasm bytes>` : wasm-encoded WIT package
+//!   witvalid (C09/C31) `<hex wit text>` -> `valid` | `invalid <hex msg>` : component-model validity of the package
 //!   rustid   (C09)  see rustid.rs
+//!   scopes   (C09/C31) see scopes.rs
 //!   rustgen  (C09)  see gen.rs
 //!   cppgen   (C31)  see gen.rs
 use std::io::{BufRead, Write};
 
 mod gen;
 mod rustid;
+mod scopes;
 mod util;
 mod witpkg;
 
@@ -17,7 +20,9 @@ fn main() {
     let engine = std::env::args().nth(1).expect("engine");
     let f: fn(&str) -> String = match engine.as_str() {
         "witpkg" => witpkg::handle,
+        "witvalid" => witpkg::handle_valid,
         "rustid" => rustid::handle,
+        "scopes" => scopes::handle,
         "rustgen" => gen::handle_rust,
         "cppgen" => gen::handle_cpp,
         other => panic!("unknown engine {other}"),
